@@ -56,7 +56,7 @@ class GenerateFromHJK(E2Contract):
     max_paths = 8
 
     def configs(self, tier):
-        return ["1q"] + (["1qt"] if tier == "thorough" else [])
+        return ["1q", "1qt"]
 
     def inputs(self, W, cfg, mk):
         d = DIMS[cfg]
@@ -100,7 +100,7 @@ class ExtractAndParts(E2Contract):
     frame = False
 
     def configs(self, tier):
-        return ["1q"] + (["1qt"] if tier == "thorough" else [])
+        return ["1q", "1qt"]
 
     def inputs(self, W, cfg, mk):
         d = DIMS[cfg]
@@ -117,7 +117,8 @@ class ExtractAndParts(E2Contract):
         return dict(h=el.calc_h_mat(), j=el.calc_j_mat(), k=el.calc_k_mat(),
                     parts_cb=el.calc_h_part("comp_basis") + el.calc_j_part("comp_basis") + el.calc_k_part("comp_basis"),
                     d_cb=el.calc_d_part("comp_basis"), jk_cb=el.calc_j_part("comp_basis") + el.calc_k_part("comp_basis"),
-                    whole_cb=el.convert_to_comp_basis())
+                    whole_cb=el.convert_to_comp_basis(),
+                    h_hb=el.calc_h_part(), j_hb=el.calc_j_part(), k_hb=el.calc_k_part(), d_hb=el.calc_d_part())
 
     def post(self, W, cfg, inp, out):
         S = W.S
@@ -130,7 +131,77 @@ class ExtractAndParts(E2Contract):
                 eq("extract/H", out["h"], H - S.trace(H) / d * ident, "calc_h_mat == the traceless part of H (the identity component does not act)"),
                 eq("extract/J", out["j"], J, "calc_j_mat(generate(H,J,K)) == J (including its identity component)"),
                 eq("parts-sum-to-whole", out["parts_cb"], out["whole_cb"], "H part + J part + K part == the generator (computational basis)"),
-                eq("d-part", out["d_cb"], out["jk_cb"], "dissipator part == J part + K part")]
+                eq("d-part", out["d_cb"], out["jk_cb"], "dissipator part == J part + K part"),
+                ] + self._hermitian_mode(W, cfg, inp, out)
+
+    def _hermitian_mode(self, W, cfg, inp, out):
+        """default mode (the object's Hermitian basis): every part is the HS matrix of its own map, up to the documented truncation; the exact parts sum to the whole"""
+        S = W.S
+        c = inp["c_sys"]
+        d = DIMS[cfg]
+        np = W.np
+        atol = W.mod("quara.settings").Settings.get_atol()
+        H0 = inp["H"] - S.trace(inp["H"]) / d * np.eye(d, dtype=np.complex128)
+        LH, LJ, LK = spec_parts(S, c, H0, inp["J"], inp["K"])
+        e_h, e_j, e_k = S.hs_of_map(c, LH), S.hs_of_map(c, LJ), S.hs_of_map(c, LK)
+        tr = lambda o, e: S.And(S.truncated(o, np.real(e), atol))
+        return [true("h-part/hermitian-basis", tr(out["h_hb"], e_h), "calc_h_part() == HS matrix of rho -> -i[H,rho] in the object's basis (up to truncation)"),
+                true("j-part/hermitian-basis", tr(out["j_hb"], e_j), "calc_j_part() == HS matrix of rho -> J rho + rho J (up to truncation)"),
+                true("k-part/hermitian-basis", tr(out["k_hb"], e_k), "calc_k_part() == HS matrix of rho -> sum K_ab B_a rho B_b^dagger (up to truncation)"),
+                true("d-part/hermitian-basis", tr(out["d_hb"], e_j + e_k), "calc_d_part() == J part + K part (up to truncation)"),
+                eq("lemma:exact-parts-sum-to-whole/hermitian-basis", np.real(e_h + e_j + e_k), inp["hs"], "the exact H, J and K parts sum to the generator in the object's basis")]
+
+
+class IneqProjection(E2Contract):
+    """the inequality projection replaces the dissipator matrix K by sum_k max(w_k,0) v_k v_k^dagger for the library's eigenpairs of K and keeps H and J:
+    with numpy's eig contract (V unitary, V diag(w) V^dagger == K, assumed) this is the positive part of K: a positive semidefinite dissipator, and K itself
+    whenever K is already positive semidefinite (physical generators unchanged)"""
+    name = "EffectiveLindbladian.calc_proj_ineq_constraint"
+    prop = "C18"
+    targets = (EL + ":EffectiveLindbladian.calc_proj_ineq_constraint", EL + ":generate_effective_lindbladian_from_hjk")
+    max_paths = 64
+    frame = True
+    n_conformance = 1
+
+    def configs(self, tier):
+        return ["1q"]
+
+    def inputs(self, W, cfg, mk):
+        d = DIMS[cfg]
+        S = W.S
+        c = make_csys(W, cfg)
+        H, J, K = mk.hermitian("H", d), mk.hermitian("J", d), mk.hermitian("K", d * d - 1)
+        LH, LJ, LK = spec_parts(S, c, H, J, K)
+        hs = S.hs_of_map(c, lambda r: LH(r) + LJ(r) + LK(r))
+        hs_real = W.np.array(hs.real, dtype=W.np.float64) if not W.symbolic else hs.real
+        return dict(el=W.mod(EL).EffectiveLindbladian(c, hs_real, is_physicality_required=False), c_sys=c)
+
+    def run(self, W, cfg, inp):
+        el = inp["el"]
+        new = el.calc_proj_ineq_constraint()
+        return dict(hs_new=new.hs, k=el.calc_k_mat(), h=el.calc_h_mat(), j=el.calc_j_mat(), kind=type(new).__name__, hs=el.hs)
+
+    def post(self, W, cfg, inp, out):
+        np, S = W.np, W.S
+        c = inp["c_sys"]
+        K = out["k"]
+        w, V = np.linalg.eig(K)
+        n = K.shape[0]
+        acc = S.zeros_c((n, n))
+        for k in range(n):
+            vk = V[:, k].reshape((n, 1))
+            wk = np.where(w[k] < 0, 0, w[k]) if W.symbolic else max(float(np.real(w[k])), 0.0)
+            acc = acc + wk * (vk @ np.conjugate(vk).T)
+        atol = W.mod("quara.settings").Settings.get_atol()
+        LH, LJ, LK = spec_parts(S, c, out["h"], out["j"], acc)
+        exact = S.hs_of_map(c, lambda r: LH(r) + LJ(r) + LK(r))
+        return [eq("type", out["kind"], "EffectiveLindbladian", "the projection returns an EffectiveLindbladian"),
+                true("generator==(H, J, positive-part-of-K)", S.truncated(out["hs_new"], np.real(exact), atol),
+                     "the result is the generator with the same H and J and with K replaced by sum_k max(w_k,0) v_k v_k^dagger for the eigenpairs (w, V) of K "
+                     "(up to the truncation rule): a positive semidefinite dissipator, and the generator itself when K already is")]
+
+    def canary(self, W, cfg, inp, out):
+        return [eq("canary", out["hs_new"], out["hs"], "(false) the projection never changes the generator")]
 
 
 class Verdicts(E2Contract):
